@@ -241,7 +241,8 @@ class Collection:
             else:
                 self._fields[field_name].extend(other._fields[field_name], memo)
 
-        for field_name in only_in_self:
+        # Loop over the fields in field order (the iteration order of a set of strings differs between runs)
+        for field_name in [f for f in self._fields.keys() if f in only_in_self]:
             self._fields[field_name].append_empty(len_other, memo)
 
     def add_field(self, fieldname: str, field: "FieldType") -> None:
